@@ -359,6 +359,11 @@ def run(chk):
         ok = re_kw is None or source.is_const(re_kw, False)
         chk.ob("O9.5", "asyncio.gather propagates client exceptions", ok, c, "return_exceptions is not enabled" if ok else "return_exceptions=True swallows client failures")
 
+    # abort policy per request (shared with C04/O4.6)
+    from rules.C04 import check_execute_single
+
+    check_execute_single(chk, drv, "O9.5b")
+
     # ---- O9.6 no results on error or cancel ----------------------------------------------------------
     chk.rule("O9.6", "in the coordinator every call that computes, stores or prints results is reachable only under cancelled=False and error=False "
              "(4-row truth table of the guarding predicates); the flags are only ever set to True after construction", 5,
